@@ -215,7 +215,7 @@ def run(ctx):
     # ---- R: race detector as conformance oracle for the atomicity assumption
     ms = 8000 if thorough else 2500
     nraces = 0
-    for test in ("TestVerifIngestRaceNoReload", "TestVerifIngestRaceReload"):
+    for test in ("TestVerifIngestRaceNoReload", "TestVerifIngestRaceReload", "TestVerifIngestRaceChurn"):
         rr = ctx.go_test(PKG, FILES, "lib", "^%s$" % test, env={"VERIF_RACE_MS": ms, "VERIF_OUT": os.path.join(ctx.scratch, "race.out")},
                          race=True, timeout=180)
         st = ctx.stall_sites(rr)
